@@ -91,6 +91,10 @@ def run(ctx):
     n_sites = 0
     kinds = {}
     seen_pairs = set()
+    from ..core import RefGraph
+    from ..region import Facts
+
+    ctx_facts = Facts(index, RefGraph(index))
     for f in index.nontest_funcs():
         if not any(x in f.mod.name for x in ("parse", "emit", "docstring_parsers", "defaults_utils", "ast_utils", "parser_utils", "shared_utils")):
             continue
@@ -125,6 +129,10 @@ def run(ctx):
             n_sites += 1
             art = arts[0]
             facts = facts_at.get(id(n)) or {}
+            # a growth statement extracted into a private helper is guarded at the helper's call sites
+            merged = ctx_facts.at(f, n)
+            for k_, v_ in merged.items():
+                facts.setdefault(k_, v_)
             how, why = _discharge(index, f, n, slot, art, facts, seen_pairs, canon=lambda t, _f=f: ctx._canon(_f.mod.name, _f.short, t))
             kinds[how or "UNDISCHARGED"] = kinds.get(how or "UNDISCHARGED", 0) + 1
             ctx.ob(
